@@ -11,6 +11,7 @@ import SeliumModel.Lemmas.PubSubHealthy
 import SeliumModel.Lemmas.PubSubSettle
 import SeliumModel.Lemmas.ReqRepMore
 import SeliumModel.Lemmas.ReqRepClosed
+import SeliumModel.Lemmas.ReqRepQuiet
 import SeliumModel.Lemmas.System
 
 namespace Selium.Route
@@ -124,6 +125,10 @@ end Selium.Route
 namespace Selium.Route
 open Selium.Sink
 
+/-- … and when it finishes, every reply it had handed to a requestor's sink has been flushed. -/
+theorem c16_reqrep_done_flushed (fuel : Nat) (s : RR) (h : (rrPoll fuel s).1 = .done) :
+    ∀ k ∈ (rrPoll fuel s).2.sinks, k.flushed = k.got.length := (rrPoll_quiet fuel s).2 h
+
 /-- Once the channel is closed a poll of the request/reply router, from any state (idle, only one side
     connected, a request / reply / rejection buffered, sockets still queued), finishes or is waiting for one
     particular sink that answered Pending — within `rwork s + 1` iterations. It never goes back to waiting for
@@ -203,6 +208,7 @@ end Selium.Server
 #print axioms Selium.Route.c16_pubsub_shutdown_completes
 #print axioms Selium.Route.c16_pubsub_closed_takes_nothing_more
 #print axioms Selium.Route.c16_reqrep_closed_outcome
+#print axioms Selium.Route.c16_reqrep_done_flushed
 #print axioms Selium.Route.c16_reqrep_closed_takes_nothing_more
 #print axioms Selium.Server.c16_shutdown_closes_every_topic
 #print axioms Selium.Server.c16_server_shutdown_every_pubsub_topic_completes
